@@ -578,6 +578,8 @@ void checkOracles(const Desc& d, const Obs& o, RunResult& r) {
         size_t hangs = 0, forks = 0, conts = 0, stopsSeen = 0;
         for (size_t i = 0; i + 2 < o.procLog.size(); i += 3) { if (o.procLog[i + 1] == 4) hangs++; if (o.procLog[i + 1] == 1) forks++; if (o.procLog[i + 1] == 3 && o.procLog[i + 2] == 18) conts++; }
         for (size_t i = 0; i < o.fails.size(); i++) if (o.fails[i].msg.find("Stopped in separate process") != Str::npos) stopsSeen++;
+        { size_t wrong = 0; for (size_t i = 0; i + 2 < o.procLog.size(); i += 3) if (o.procLog[i + 1] == 6) wrong++;
+          if (wrong) r.fail("C11", "waits_for_its_own_child", sfmt("%zu waitpid calls named a process other than the child forked for the test (any child: -1)", wrong)); }
         if (hangs) r.fail("C11", "bounded_wait", sigOf("what", "waitpid called again after the child had terminated"), sfmt("%zu tests kept waiting after their terminal status", hangs));
         { size_t wantForks = 0; for (size_t q = 0; q < repsSeen.size(); q++) wantForks += nRunAt[q < nRunAt.size() ? q : nRunAt.size() - 1];
           if (forks != wantForks) r.fail("C11", "remaining_tests", sigOf("what", "fork count"), sfmt("%zu forks for %zu executed tests over %zu repetitions", forks, wantForks, repsSeen.size())); }
